@@ -134,45 +134,46 @@ Definition strict_gate_ok (c : cfg) (hist : list (list row)) (tbl : list row) (e
   negb (gating c) || forallb (fun e => cK c <=? streak_src (ev_prod tbl e) (fst e) hist) evs.
 
 (* ---------- whole histories ---------- *)
-Fixpoint hist_holds (c : cfg) (ns : list nstat) (rounds : list (list nround))
+(* the usage / threshold table and the pool size of every round, recomputed from the inputs *)
+Definition tables (c : cfg) (ns : list nstat) (rounds : list (list nround)) : list (list row * Z) :=
+  map (fun rs => (table c ns rs, pool_size c ns rs)) rounds.
+
+Fixpoint hist_holds (c : cfg) (tbls : list (list row * Z))
   (obs : list (list ev)) (hist : list (list row)) : Prop :=
-  match rounds, obs with
+  match tbls, obs with
   | [], [] => True
-  | rs :: rt, evs :: ot =>
-    let tbl := table c ns rs in
-    round_holds c tbl (pool_size c ns rs) evs /\ gate_holds c hist tbl evs /\
-    hist_holds c ns rt ot (tbl :: hist)
+  | (tbl, psize) :: rt, evs :: ot =>
+    round_holds c tbl psize evs /\ gate_holds c hist tbl evs /\
+    hist_holds c rt ot (tbl :: hist)
   | _, _ => False
   end.
 
-Fixpoint check_hist (c : cfg) (ns : list nstat) (rounds : list (list nround))
+Fixpoint check_hist (c : cfg) (tbls : list (list row * Z))
   (obs : list (list ev)) (hist : list (list row)) : Z :=
-  match rounds, obs with
+  match tbls, obs with
   | [], [] => 0
-  | rs :: rt, evs :: ot =>
-    let tbl := table c ns rs in
-    let k := check_round c tbl (pool_size c ns rs) evs in
+  | (tbl, psize) :: rt, evs :: ot =>
+    let k := check_round c tbl psize evs in
     if negb (k =? 0) then k
     else if negb (gate_ok c hist tbl evs) then 6
-    else check_hist c ns rt ot (tbl :: hist)
+    else check_hist c rt ot (tbl :: hist)
   | _, _ => 9
   end.
 
-Fixpoint check_strict (c : cfg) (ns : list nstat) (rounds : list (list nround))
+Fixpoint check_strict (c : cfg) (tbls : list (list row * Z))
   (obs : list (list ev)) (hist : list (list row)) : Z :=
-  match rounds, obs with
-  | rs :: rt, evs :: ot =>
-    let tbl := table c ns rs in
-    if negb (strict_gate_ok c hist tbl evs) then 7 else check_strict c ns rt ot (tbl :: hist)
+  match tbls, obs with
+  | (tbl, _) :: rt, evs :: ot =>
+    if negb (strict_gate_ok c hist tbl evs) then 7 else check_strict c rt ot (tbl :: hist)
   | _, _ => 0
   end.
 
 Definition C18_holds (c : cfg) (ns : list nstat) (rounds : list (list nround)) (obs : list (list ev)) : Prop :=
-  hist_holds c ns rounds obs [].
+  hist_holds c (tables c ns rounds) obs [].
 Definition prop_code (c : cfg) (ns : list nstat) (rounds : list (list nround)) (obs : list (list ev)) : Z :=
-  check_hist c ns rounds obs [].
+  check_hist c (tables c ns rounds) obs [].
 Definition strict_code (c : cfg) (ns : list nstat) (rounds : list (list nround)) (obs : list (list ev)) : Z :=
-  check_strict c ns rounds obs [].
+  check_strict c (tables c ns rounds) obs [].
 
 (* well-formed input: pod names are unique on a node *)
 Fixpoint nodupb (l : list Z) : bool :=
